@@ -41,11 +41,12 @@ CHECKS["C02"] = dict(
          "node grid of one block (intrusive lists) / of one chunk (small list: usable start + i*stride + header + idx*node_size) after any "
          "amount of growth and is aligned to alignment_for(node_size) (blocks max_alignment-aligned; alignment_for divides node size, "
          "max_alignment, the chunk header and the chunk stride); a node is one whole cell, an array of n nodes is n consecutive cells of "
-         "one block (element i at base + i*node_size). (3) memory_pool_collection over node_pool/array_pool buckets, node operations, all histories (Props/C02Coll): every live "
-         "node and every free cell is aligned to alignment_for(node size of its bucket) - regions given to a bucket start max_alignment-aligned (fixed_memory_stack::allocate, "
-         "align_offset in insert_rest), also after growth - and the bucket's node size is at least the requested size (identity and log2 buckets, via C19). Arrays on collections "
-         "and small-node buckets: alignment, size, contiguity and usability checked by oracles on the real code over seeded histories (model correspondence for addresses).",
-    note="partial: collection arrays and small-node buckets at correspondence + oracle level; over-aligned requests are rejected by pools (C03).",
+         "one block (element i at base + i*node_size). (3) memory_pool_collection over node_pool/array_pool buckets, node and array operations and reserve, all histories (Props/C02Coll, Props/C02CollArr): every cell the "
+         "caller holds (nodes, every cell of every array) and every free cell is aligned to alignment_for(node size of its bucket) - regions given to a bucket start max_alignment-aligned (fixed_memory_stack::allocate, "
+         "align_offset in insert_rest), also after growth and through all three stages of allocate_array; an array handed out is ceil(count*size/ns) consecutive whole cells covering count*size bytes; no operation "
+         "changes a bucket's node size; the bucket's node size is at least the requested size and alignment_for(requested size) divides alignment_for(bucket node size) (identity and log2 buckets, via C19) - so the "
+         "alignment the traits accept for the request is honoured. Small-node buckets: alignment, size and usability checked by oracles on the real code over seeded histories (model correspondence for addresses).",
+    note="partial: small-node buckets of collections at correspondence + oracle level; over-aligned requests are rejected by pools (C03).",
     technique="Lean 4 proof over translated guards (stacks) and conservation invariant by induction over histories (pools) + correspondence/oracles")
 CHECKS["C03"] = dict(
     text="Lean theorems over the models of static_allocator, memory_stack, iteration_allocator, memory_pool and memory_pool_collection "
